@@ -22,18 +22,20 @@ type Step struct {
 // Atom is one element of the operation alphabet for building trees: "make this node exist
 // (with this value)".
 type Atom struct {
-	ID     int     `json:"id"`
-	Steps  []Step  `json:"steps"`
-	Val    Value   `json:"val,omitempty"`
-	Kind   string  `json:"kind"` // leaf leaflist entry presence unkeyed
-	Name   string  `json:"name"`
-	Choice string  `json:"choice,omitempty"` // "<choice>/<case>" when the leaf sits in a choice
-	Nested bool    `json:"nested,omitempty"`
-	Focus  bool    `json:"focus,omitempty"`
-	Config bool    `json:"config"`           // schema node is config true
-	Ord    bool    `json:"ord,omitempty"`    // touches an ordered-by-user list (order sensitive)
-	Path   Path    `json:"-"`                // data-tree path of the node the atom creates (first tag alternative)
-	Entry  *yang.Entry `json:"-"`
+	ID        int         `json:"id"`
+	Steps     []Step      `json:"steps"`
+	Val       Value       `json:"val,omitempty"`
+	Kind      string      `json:"kind"` // leaf leaflist entry presence unkeyed
+	Name      string      `json:"name"`
+	Choice    string      `json:"choice,omitempty"` // "<choice>/<case>" when the leaf sits in a choice
+	ChoiceKey string      `json:"-"`                // identifies the choice instance (owning struct steps + choice name)
+	Case      string      `json:"-"`                // case name within ChoiceKey
+	Nested    bool        `json:"nested,omitempty"`
+	Focus     bool        `json:"focus,omitempty"`
+	Config    bool        `json:"config"`        // schema node is config true
+	Ord       bool        `json:"ord,omitempty"` // touches an ordered-by-user list (order sensitive)
+	Path      Path        `json:"-"`             // data-tree path of the node the atom creates (first tag alternative)
+	Entry     *yang.Entry `json:"-"`
 }
 
 // ---- schema navigation -------------------------------------------------------------------
@@ -537,6 +539,13 @@ func pick(dom []Value, idx ...int) []Value {
 
 func (p *Pkg) derive(st reflect.Type, se *yang.Entry, steps []Step, prefix Path, depth int, cfg bool,
 	scal, lls, ents, nest *[]*Atom) {
+	p.deriveIn(st, se, steps, prefix, depth, cfg, "", "", scal, lls, ents, nest)
+}
+
+// deriveIn is derive with the "<choice>/<case>" inherited from an enclosing case (a container or
+// list inside a case makes all of its content belong to that case).
+func (p *Pkg) deriveIn(st reflect.Type, se *yang.Entry, steps []Step, prefix Path, depth int, cfg bool, inh, inhKey string,
+	scal, lls, ents, nest *[]*Atom) {
 	if st.Kind() == reflect.Ptr {
 		st = st.Elem()
 	}
@@ -548,6 +557,12 @@ func (p *Pkg) derive(st reflect.Type, se *yang.Entry, steps []Step, prefix Path,
 			continue
 		}
 		ce, choice := FindChild(se, alts[0])
+		choiceKey := inhKey
+		if choice == "" {
+			choice = inh
+		} else {
+			choiceKey = stepsName(steps) + "|" + choice[:strings.LastIndex(choice, "/")]
+		}
 		fcfg := cfg
 		if ce != nil {
 			fcfg = cfg && entryConfig(ce, se, alts[0])
@@ -556,6 +571,9 @@ func (p *Pkg) derive(st reflect.Type, se *yang.Entry, steps []Step, prefix Path,
 		fpath := prefix.Names(alts[0]...)
 		mk := func(kind string, v Value, focus bool, st []Step, path Path) *Atom {
 			a := &Atom{Steps: st, Val: v, Kind: kind, Choice: choice, Nested: nested, Focus: focus, Config: fcfg, Path: path, Entry: ce}
+			if choice != "" {
+				a.ChoiceKey, a.Case = choiceKey, choice[strings.LastIndex(choice, "/")+1:]
+			}
 			a.Name = stepsName(st)
 			if v != NoValue {
 				a.Name += "=" + string(v)
@@ -609,7 +627,7 @@ func (p *Pkg) derive(st reflect.Type, se *yang.Entry, steps []Step, prefix Path,
 					*scal = append(*scal, a)
 				}
 			}
-			p.derive(f.Type, ce, fsteps, fpath, depth, fcfg, scal, lls, ents, nest)
+			p.deriveIn(f.Type, ce, fsteps, fpath, depth, fcfg, choice, choiceKey, scal, lls, ents, nest)
 		case FKeyedList, FOrderedList:
 			var et reflect.Type
 			if f.Type.Kind() == reflect.Map {
@@ -808,13 +826,11 @@ func (p *Pkg) Build(seq []*Atom) (interface{}, error) {
 	root := p.NewRoot()
 	choices := map[string]string{}
 	for _, a := range seq {
-		if a.Choice != "" {
-			i := strings.LastIndex(a.Choice, "/")
-			ch, cs := stepsName(a.Steps[:len(a.Steps)-1])+"|"+a.Choice[:i], a.Choice[i+1:]
-			if prev, ok := choices[ch]; ok && prev != cs {
+		if a.ChoiceKey != "" {
+			if prev, ok := choices[a.ChoiceKey]; ok && prev != a.Case {
 				return nil, ErrConflict
 			}
-			choices[ch] = cs
+			choices[a.ChoiceKey] = a.Case
 		}
 		if err := p.Apply(root, a); err != nil {
 			return nil, err
